@@ -1,20 +1,39 @@
 """C05 - no datagram can crash or bloat the process (core part; FEC/session parts: engines fec, gate)."""
 import kcp_common as K
+import vcheck as V
 
 META = {
     "enabled": True,
     "engine": "kcp",
     "technique": "Coq totality + invariant proof with Go panics modelled as values, for arbitrary byte strings; differential replay on malformed streams under recover()",
     "level_text": "Every model function returns Panic wherever the Go code would fault on a slice bound (pool buffers of mtuLimit bytes, the 3*(mtu+24) staging buffer). Theorem: at every reachable state Input of ANY byte list of ANY length returns Ok, keeps the invariant (hence the C04 buffering bounds, each stored segment <= mtuLimit bytes) and accounts for pending acks; the same for every other call over every operation sequence. Tied to kcp.go by replaying malformed streams (field mutations to boundary values, truncations at every offset class, appended bogus segments, random bytes incl. > 1500-byte datagrams for the raw core) on the real core under recover(): a real panic where the model says Ok, or vice versa, is a disagreement.",
-    "level_note": K.TRUST + " The FEC decoder's totality for 8..1500-byte packets is proved in the fec engine (C07/C16 files) and the session/listener gate in the gate engine (C06); unbounded heap growth outside the modelled queues (Go runtime, sync.Pool) is not exhibited.",
+    "level_note": K.TRUST + " The FEC decoder's part (decode total for every 6..mtuLimit-byte packet; at most maxShardSets+1 groups of fewer than dataShards packets after ANY packet sequence, forged ids included) is proved in coq/fec/C05fec.v and replayed against the real decoder; the session/listener gate is the gate engine's (C06); unbounded heap growth outside the modelled queues (Go runtime, sync.Pool) is not exhibited.",
 }
 OBLIGATIONS = ["c05_input_total", "c05_never_panics", "c05_bounded_state", "c05_acklist", "c05_flush_empties_acklist"]
 RELEVANT = K.PANICS | K.RESULTS | {"rq", "rb", "al", "rnxt"}
 
 
+FEC_OBLIGATIONS = ["c05_fec_decode_total", "c05_fec_bounded", "c05_fec_bounded_inv"]
+
+
 def run(ctx):
     K.core_check(ctx, "C05", "C05.v", OBLIGATIONS, RELEVANT,
                  "kcp.go vs coq/kcp/Kcp.v on malformed and forged datagram streams (panics included)")
+    core_cov = dict(ctx.coverage)
+    # the FEC decoder's part of the property: total on any packet, bounded state under forged ids
+    ctx.prove("fec", "C05fec.v", FEC_OBLIGATIONS)
+    fec_cov = dict(ctx.coverage)
+    rep, _ = V.harness_report(ctx, "^TestVerifC05Fec$", "C05fec.report.json", files=["fec_test.go"])
+    summ = V.driver_compare(ctx, "fec", ["fec_model"], "fec_driver", "C05fec.log",
+                            "fec.go decoder vs coq/fec/Fec.v on forged and genuine FEC packets")
+    # merge the two proof steps into one evidence record
+    ctx.coverage = core_cov
+    ctx.coverage["obligations"] = core_cov.get("obligations", 0) + fec_cov.get("obligations", 0)
+    ctx.coverage["discharged"] = core_cov.get("discharged", 0) + fec_cov.get("discharged", 0)
+    ctx.coverage["checker_cmd"] = core_cov.get("checker_cmd", "") + " ; " + fec_cov.get("checker_cmd", "")
+    ctx.coverage["trusted_base"] = core_cov.get("trusted_base", []) + [t for t in fec_cov.get("trusted_base", []) if t.startswith("Print Assumptions")]
+    ctx.coverage.setdefault("theorems", {}).update(fec_cov.get("theorems", {}))
+    V.merge_report(ctx, rep, summ)
     ctx.coverage["rule"] = ("two-endpoint histories in which 8-45 % of deliveries are replaced by a malformed variant of a captured datagram or random bytes "
                             "(lengths 0,1,11,12,19,20,23,24,25,47..1500 and 1524..4096); non-trivial = at least one malformed datagram was fed")
     ctx.assumptions += ["byte strings consist of bytes (0..255)"]
